@@ -165,12 +165,12 @@ impl Property for C01 {
         let n = |a: u64, b: u64| if q { a } else { b };
         vec![
             Family { name: "sole_edge", kind: FamilyKind::Enumerated { count: (EDGES.len() * OBJECTS.len()) as u64, exhaustive: true } },
-            Family { name: "mixed", kind: FamilyKind::Random { cases: n(6000, 80_000), max_len: 700 } },
-            Family { name: "fibers", kind: FamilyKind::Random { cases: n(4000, 50_000), max_len: 700 } },
-            Family { name: "classes", kind: FamilyKind::Random { cases: n(4000, 50_000), max_len: 700 } },
-            Family { name: "scopes", kind: FamilyKind::Random { cases: n(4000, 50_000), max_len: 700 } },
-            Family { name: "iteration", kind: FamilyKind::Random { cases: n(3000, 40_000), max_len: 700 } },
-            Family { name: "maps", kind: FamilyKind::Random { cases: n(3000, 40_000), max_len: 200 } },
+            Family { name: "mixed", kind: FamilyKind::Random { cases: n(12000, 160_000), max_len: 700 } },
+            Family { name: "fibers", kind: FamilyKind::Random { cases: n(8000, 100_000), max_len: 700 } },
+            Family { name: "classes", kind: FamilyKind::Random { cases: n(8000, 100_000), max_len: 700 } },
+            Family { name: "scopes", kind: FamilyKind::Random { cases: n(8000, 100_000), max_len: 700 } },
+            Family { name: "iteration", kind: FamilyKind::Random { cases: n(6000, 80_000), max_len: 700 } },
+            Family { name: "maps", kind: FamilyKind::Random { cases: n(6000, 80_000), max_len: 200 } },
             Family { name: "alloc_loops", kind: FamilyKind::Random { cases: n(1500, 20_000), max_len: 40 } },
         ]
     }
